@@ -43,8 +43,8 @@ func NearDegenerate(sets []Paths, closed bool, tol float64) (bool, string) {
 			}
 		}
 	}
-	if len(segs) > 1500 {
-		return false, "" // large inputs are not classified (C19's large family is built to be generic)
+	if len(segs) > 20000 {
+		return false, "" // not classified (no generator produces inputs this large)
 	}
 	for _, v := range verts {
 		for _, s := range segs {
@@ -64,6 +64,10 @@ func NearDegenerate(sets []Paths, closed bool, tol float64) (bool, string) {
 	for i := 0; i < len(segs); i++ {
 		for j := i + 1; j < len(segs); j++ {
 			s, t := segs[i], segs[j]
+			if max(s.a.X, s.b.X) < min(t.a.X, t.b.X) || max(t.a.X, t.b.X) < min(s.a.X, s.b.X) ||
+				max(s.a.Y, s.b.Y) < min(t.a.Y, t.b.Y) || max(t.a.Y, t.b.Y) < min(s.a.Y, s.b.Y) {
+				continue
+			}
 			if !SegsProperlyCross(s.a, s.b, t.a, t.b) {
 				continue
 			}
@@ -85,6 +89,10 @@ func NearDegenerate(sets []Paths, closed bool, tol float64) (bool, string) {
 			}
 			for k, o := range segs {
 				if k == i || k == j {
+					continue
+				}
+				if px < float64(min(o.a.X, o.b.X))-tol || px > float64(max(o.a.X, o.b.X))+tol ||
+					py < float64(min(o.a.Y, o.b.Y))-tol || py > float64(max(o.a.Y, o.b.Y))+tol {
 					continue
 				}
 				if DistSegF(px, py, o.a, o.b) <= tol {
